@@ -79,12 +79,18 @@ def judge(h, res):
             sess[o["sid"]] = dict(user=o["user"], key=o["key"], ok=r["admitted"], pool=list(pool) if r["admitted"] else [])
         elif o["op"] == "request" and r.get("started"):
             s = sess[o["sid"]]; k = o["kind"]
+            if k["type"] == "pfdata":
+                if not s.get("fwd"):
+                    out.append("a port-forwarding data tube was proxied to the requested address in a grant-admitted session although no local forwarding had been authorized in it | %s" % d)
+                continue
             if k["type"] == "issue":
                 out.append("a session admitted through grants issued a further grant (authorization-grant tube accepted, intent confirmed) | %s" % d); continue
             cands = [g for g in s["pool"] if g["id"] not in used and g["type"] == k["type"] and (k["type"] != "cmd" or g["cmd"] == k["cmd"])]
             eff = [g for g in cands if g["start"] <= now < g["exp"]]
             if eff:
                 used.add(sorted(eff, key=lambda g: g["exp"])[0]["id"])
+                if k["type"] == "localpf":
+                    s["fwd"] = True
                 continue
             why = "its only matching grant is not yet effective (start %d, now %d)" % (cands[0]["start"], now) if any(now < g["start"] for g in cands) else \
                   "its matching grant has expired" if cands else \
